@@ -1329,11 +1329,15 @@ func (seq *Sequence) Release() error {
 }
 
 func (seq *Sequence) updateLease() error {
-	return seq.db.Update(func(txn *Txn) error {
+	// The in-memory lease is only advanced once the transaction storing it has committed.
+	// Otherwise a failed commit (conflict, blocked writes) would leave seq handing out
+	// numbers which are not covered by the stored lease, and hence could be handed out again.
+	var next, lease uint64
+	err := seq.db.Update(func(txn *Txn) error {
 		item, err := txn.Get(seq.key)
 		switch {
 		case err == ErrKeyNotFound:
-			seq.next = 0
+			next = 0
 		case err != nil:
 			return err
 		default:
@@ -1344,18 +1348,20 @@ func (seq *Sequence) updateLease() error {
 			}); err != nil {
 				return err
 			}
-			seq.next = num
+			next = num
 		}
 
-		lease := seq.next + seq.bandwidth
+		lease = next + seq.bandwidth
 		var buf [8]byte
 		binary.BigEndian.PutUint64(buf[:], lease)
-		if err = txn.SetEntry(NewEntry(seq.key, buf[:])); err != nil {
-			return err
-		}
-		seq.leased = lease
-		return nil
+		return txn.SetEntry(NewEntry(seq.key, buf[:]))
 	})
+	if err != nil {
+		return err
+	}
+	seq.next = next
+	seq.leased = lease
+	return nil
 }
 
 // GetSequence would initiate a new sequence object, generating it from the stored lease, if
